@@ -224,7 +224,7 @@ CHECKS = {
         "level": "exploration",
         "technique": "rapid property-based testing over damage x consumer x cancellation instant x GOMAXPROCS with a watchdog as termination oracle and an independent validity verdict",
         "level_text": ("Generated builds + damage (including a stage with >1024 wounds: 1100-2100 missing dirs/symlinks or damaged small files, and "
-                       "damage only in the last file) x consumer (fail-fast, wounds file writable/unwritable, healer with good/partial/missing "
+                       "damage only in the last file; and one file of 66-96 MiB - more blocks than the wound channel has slots - followed by a small one) x consumer (fail-fast, wounds file writable/unwritable, healer with good/partial/missing "
                        "archive, printer) x cancellation instant (before start, inside the n-th consumer callback, after a drawn delay, never) x "
                        "GOMAXPROCS. Oracles: Validate returns on the calling goroutine within the watchdog (a hang is confirmed by a second run "
                        "in a fresh process with a doubled deadline and goroutine stacks inside wharf); if fail-fast returns nil, an independent "
@@ -233,7 +233,7 @@ CHECKS = {
         "rule": ("rapid draws (tree, damages, consumer, cancellation, GOMAXPROCS). Non-trivial: a damaged directory validated with a cancelled "
                  "context or a consumer that failed. Distinct: SHA-1 of the spec."),
         "assumptions": ["a case that needs more than 60s (120s for the >1024-wound stage) is treated as a hang candidate; normal cases take milliseconds to ~1s"],
-        "required_classes": {"quick": ["cancel:before-start", "cancel:in-callback", "cancel:after-delay", "consumer:failfast", "consumer:heal-partial", "tree:>1024-entries"],
+        "required_classes": {"quick": ["cancel:before-start", "cancel:in-callback", "cancel:after-delay", "consumer:failfast", "consumer:heal-partial", "tree:>1024-entries", "tree:file->1024-blocks"],
                              "thorough": ["cancel:before-start", "cancel:in-callback", "cancel:after-delay", "consumer:failfast", "consumer:heal-partial", "consumer:woundsfile-unwritable", "tree:>1024-entries", "many-damage:last-file"]},
         "stages": [rapid("terminate", "TestProp", 4800, 48000, qs=16, ts=16, qt=600, tt=5400, schedule_dependent=True),
                    rapid("manywounds", "TestMany", 96, 1600, qs=16, ts=16, qt=600, tt=5400, schedule_dependent=True, shrinktime="10s")],
